@@ -3,7 +3,6 @@ import MythVerif.Proofs.WsQueueTsoBnd
 namespace MythVerif.WsqTso
 open MythVerif.Wsq
 
-set_option maxHeartbeats 4000000 in
 theorem bT_tk3 (s s' : St) (p : Pid) (b x) : Inv s → Inv s' → Bnd s → s.tpc p = .tk3 b x → stepT s p = some s' → Bnd s' := by
   intro h h' hb hpc hs
   have hcfg := h.cfg
@@ -28,7 +27,6 @@ theorem bT_tk3 (s s' : St) (p : Pid) (b x) : Inv s → Inv s' → Bnd s → s.tp
       (try simp only [upd_apply, applySto] at hold ⊢)
       first | assumption | (intros; contradiction) | (intro q; if hq : q = p then (subst hq; simp only [if_true]; intros; contradiction) else (simp only [if_neg hq]; exact hold q)) | grind [thiefLocked, mayBuf, notTrans, thiefFlight, popWin, rcOff_bnd, Rc1Shape, Rc2Shape, RcPre, RcShape, InsShape, Pu2Shape, CarryShape] | (intro q; by_cases hqp : q = p <;> simp [hqp] <;> grind [thiefLocked, mayBuf, notTrans, thiefFlight, popWin, rcOff_bnd, Rc1Shape, Rc2Shape, RcPre, RcShape, InsShape, Pu2Shape, CarryShape]) | skip)))
 
-set_option maxHeartbeats 4000000 in
 theorem bT_tk4 (s s' : St) (p : Pid) (r) : Inv s → Inv s' → Bnd s → s.tpc p = .tk4 r → stepT s p = some s' → Bnd s' := by
   intro h h' hb hpc hs
   have hcfg := h.cfg
@@ -52,7 +50,6 @@ theorem bT_tk4 (s s' : St) (p : Pid) (r) : Inv s → Inv s' → Bnd s → s.tpc 
       (try simp only [upd_apply, applySto] at hold ⊢)
       first | assumption | (intros; contradiction) | (intro q; if hq : q = p then (subst hq; simp only [if_true]; intros; contradiction) else (simp only [if_neg hq]; exact hold q)) | grind [thiefLocked, mayBuf, notTrans, thiefFlight, popWin, rcOff_bnd, Rc1Shape, Rc2Shape, RcPre, RcShape, InsShape, Pu2Shape, CarryShape] | (intro q; by_cases hqp : q = p <;> simp [hqp] <;> grind [thiefLocked, mayBuf, notTrans, thiefFlight, popWin, rcOff_bnd, Rc1Shape, Rc2Shape, RcPre, RcShape, InsShape, Pu2Shape, CarryShape]) | skip)))
 
-set_option maxHeartbeats 4000000 in
 theorem bT_tk5 (s s' : St) (p : Pid) (b) : Inv s → Inv s' → Bnd s → s.tpc p = .tk5 b → stepT s p = some s' → Bnd s' := by
   intro h h' hb hpc hs
   have hcfg := h.cfg
@@ -76,7 +73,6 @@ theorem bT_tk5 (s s' : St) (p : Pid) (b) : Inv s → Inv s' → Bnd s → s.tpc 
       (try simp only [upd_apply, applySto] at hold ⊢)
       first | assumption | (intros; contradiction) | (intro q; if hq : q = p then (subst hq; simp only [if_true]; intros; contradiction) else (simp only [if_neg hq]; exact hold q)) | grind [thiefLocked, mayBuf, notTrans, thiefFlight, popWin, rcOff_bnd, Rc1Shape, Rc2Shape, RcPre, RcShape, InsShape, Pu2Shape, CarryShape] | (intro q; by_cases hqp : q = p <;> simp [hqp] <;> grind [thiefLocked, mayBuf, notTrans, thiefFlight, popWin, rcOff_bnd, Rc1Shape, Rc2Shape, RcPre, RcShape, InsShape, Pu2Shape, CarryShape]) | skip)))
 
-set_option maxHeartbeats 4000000 in
 theorem bT_tk6 (s s' : St) (p : Pid) : Inv s → Inv s' → Bnd s → s.tpc p = .tk6 → stepT s p = some s' → Bnd s' := by
   intro h h' hb hpc hs
   have hcfg := h.cfg
@@ -100,7 +96,6 @@ theorem bT_tk6 (s s' : St) (p : Pid) : Inv s → Inv s' → Bnd s → s.tpc p = 
       (try simp only [upd_apply, applySto] at hold ⊢)
       first | assumption | (intros; contradiction) | (intro q; if hq : q = p then (subst hq; simp only [if_true]; intros; contradiction) else (simp only [if_neg hq]; exact hold q)) | grind [thiefLocked, mayBuf, notTrans, thiefFlight, popWin, rcOff_bnd, Rc1Shape, Rc2Shape, RcPre, RcShape, InsShape, Pu2Shape, CarryShape] | (intro q; by_cases hqp : q = p <;> simp [hqp] <;> grind [thiefLocked, mayBuf, notTrans, thiefFlight, popWin, rcOff_bnd, Rc1Shape, Rc2Shape, RcPre, RcShape, InsShape, Pu2Shape, CarryShape]) | skip)))
 
-set_option maxHeartbeats 4000000 in
 theorem bT_tpl (s s' : St) (p : Pid) (e) : Inv s → Inv s' → Bnd s → s.tpc p = .tpl e → stepT s p = some s' → Bnd s' := by
   intro h h' hb hpc hs
   have hcfg := h.cfg
@@ -124,7 +119,6 @@ theorem bT_tpl (s s' : St) (p : Pid) (e) : Inv s → Inv s' → Bnd s → s.tpc 
       (try simp only [upd_apply, applySto] at hold ⊢)
       first | assumption | (intros; contradiction) | (intro q; if hq : q = p then (subst hq; simp only [if_true]; intros; contradiction) else (simp only [if_neg hq]; exact hold q)) | grind [thiefLocked, mayBuf, notTrans, thiefFlight, popWin, rcOff_bnd, Rc1Shape, Rc2Shape, RcPre, RcShape, InsShape, Pu2Shape, CarryShape] | (intro q; by_cases hqp : q = p <;> simp [hqp] <;> grind [thiefLocked, mayBuf, notTrans, thiefFlight, popWin, rcOff_bnd, Rc1Shape, Rc2Shape, RcPre, RcShape, InsShape, Pu2Shape, CarryShape]) | skip)))
 
-set_option maxHeartbeats 4000000 in
 theorem bT_tp1 (s s' : St) (p : Pid) (e) : Inv s → Inv s' → Bnd s → s.tpc p = .tp1 e → stepT s p = some s' → Bnd s' := by
   intro h h' hb hpc hs
   have hcfg := h.cfg
